@@ -102,8 +102,10 @@ def _local_window(cy, cx, center, dx, samples_per_seg, x, y):
     offset_x = cx + int(center[0]/dx) - samples_per_seg[0]
     offset_y = cy + int(center[1]/dx) - samples_per_seg[1]
 
-    upper_x = offset_x + (2*samples_per_seg[0])
-    upper_y = offset_y + (2*samples_per_seg[1])
+    # the window spans -samples..+samples about the (truncated) center sample,
+    # inclusive on both sides
+    upper_x = offset_x + (2*samples_per_seg[0]) + 1
+    upper_y = offset_y + (2*samples_per_seg[1]) + 1
 
     # clamp the offsets
     if offset_x < 0:
